@@ -32,7 +32,7 @@ def attr_lit(s):
 def derive_source(case, schema_rel, query_rel):
     """what a user writes: one derive per operation of the document"""
     o = case["options"]
-    doc = case["doc_model"]
+    doc = case["doc_model"] or {"operations": [{"name": n} for n in case.get("operation_names", ["Q"])]}
     parts = []
     keys = ['schema_path = %s' % attr_lit(schema_rel), 'query_path = %s' % attr_lit(query_rel)]
     for k, a in (("response_derives", "response_derives"), ("variables_derives", "variables_derives"),
